@@ -44,6 +44,12 @@ def run(ctx):
     ctx.add_tlc("Lifecycle.tla: NoSpin, BlockedWhenIdle, NoOrphanRequest; GoesAway, AllAnswered under fairness", r)
     if r.violated:
         ctx.violation("C15/spec", f"Lifecycle.tla violates {r.violated}", {"tlc": r.trace})
+    r = vlib.tlc_expect_ok("DropOrder", "DropOrder.cfg", workers=4)
+    ctx.add_tlc("DropOrder.tla: the reloader is dropped before the source, a source that waits for its channel to close lets drop(cache) return", r)
+    if r.violated:
+        ctx.violation("C15/spec-droporder", f"DropOrder.tla violates {r.violated}", {"tlc": r.trace})
+    r = vlib.tlc_expect_violation("DropOrder", "DropOrder_srcfirst.cfg", "DropReturns", workers=2)
+    ctx.add_tlc("negative control: the source is dropped before the reloader (drop(cache) never returns)", r, negative=True)
     r = vlib.tlc_expect_violation("Lifecycle", "Lifecycle_d4.cfg", "NoSpin", workers=2)
     ctx.add_tlc("negative control: disconnected cache_msg only ends the drain loop (must spin: D4)", r, negative=True)
     r = vlib.tlc_expect_violation("Lifecycle", "Lifecycle_d12.cfg", "NoOrphanRequest", workers=2)
